@@ -134,7 +134,7 @@ func planC12(tier string, root *simcore.RNG) *plan {
 			}
 		}
 		var faults []Fault
-		faults = append(faults, Fault{Kind: "nodir"}, Fault{Kind: "isdir"}, Fault{Kind: "devfull"}, Fault{Kind: "vanish"}, Fault{Kind: "emfile"})
+		faults = append(faults, Fault{Kind: "nodir"}, Fault{Kind: "isdir"}, Fault{Kind: "devfull"}, Fault{Kind: "vanish"}, Fault{Kind: "emfile"}, Fault{Kind: "fifo"})
 		for _, b := range budgets {
 			faults = append(faults, Fault{Kind: "fsize", Budget: b})
 		}
@@ -244,6 +244,59 @@ func planC12(tier string, root *simcore.RNG) *plan {
 			}
 		}
 	}
+	// part 1g: resolutions people render at (100..1024 cells), each as the first render
+	// of its process; thresholds on the number of samples per line or layer, and
+	// pools that only an earlier render would have started
+	{
+		type hr struct {
+			kind   string
+			models []string
+			cells  []int
+			sinks  []string
+		}
+		sets := []hr{
+			{"msu", model2Names, []int{128, 256, 511, 512, 600, 1024}, []string{"dxf", "svg"}},
+			{"msq", model2Names, []int{128, 256, 512, 1024}, []string{"dxf", "svg"}},
+			{"dc2", model2Names, []int{100, 200, 400}, []string{"dxf", "svg"}},
+			{"mco", []string{"cube", "csg", "sphere-box"}, []int{64, 100, 128, 200}, []string{"tri", "stl", "3mf"}},
+			{"mcu", []string{"cube", "csg", "sphere-box"}, []int{64, 100, 128}, []string{"tri", "stl", "3mf"}},
+		}
+		reps := 1
+		if thorough {
+			reps = 4
+		}
+		for _, s := range sets {
+			for _, c := range s.cells {
+				for k := 0; k < reps; k++ {
+					r := root.Fork()
+					sink := pick(r, s.sinks)
+					j := Job{ID: 1, Kind: s.kind, Sink: sink, Model: pick(r, s.models), Cells: c}
+					sites := map[string]uint32{"close": 1, "go.start": 1}
+					pl.scenarios = append(pl.scenarios, &Scenario{Prop: "C12", Family: "fault", Seed: r.Uint64(), Groups: [][]Job{{j}},
+						Sites: sites, Sched: Sched{Policy: "fifo"}, Env: genEnv(r), Note: "resolution-sweep", StepCap: 4000000})
+				}
+			}
+		}
+	}
+	// part 1h: a stalled output device in real time (the library has no clock seam): the
+	// reader of the pipe is busy for 12 s (thorough: up to 35 s) while the renderer
+	// produces more than the pipe holds; every write blocks, none fails
+	{
+		stalls := []int64{12000}
+		if thorough {
+			stalls = []int64{12000, 12000, 21000, 35000}
+		}
+		for i, ms := range stalls {
+			r := root.Fork()
+			n := 3000 + r.Intn(2000)
+			j := Job{ID: 1, Kind: "script3", Sink: "stl", N: n, Batches: genPartition(r, n, 1, pick(r, []string{"fives", "small", "mixed"})), Coords: "index", Fault: Fault{Kind: "fifo", Budget: ms}}
+			if i%2 == 1 {
+				j = Job{ID: 1, Kind: pick(r, []string{"mco", "mcu"}), Sink: "stl", Model: pick(r, []string{"sphere-box", "csg"}), Cells: 40, Fault: Fault{Kind: "fifo", Budget: ms}}
+			}
+			pl.scenarios = append(pl.scenarios, &Scenario{Prop: "C12", Family: "fault", Seed: r.Uint64(), Groups: [][]Job{{j}},
+				Sites: map[string]uint32{"close": 1, "cons.stl": 1, "cons.stl.flush": 1}, Sched: Sched{Policy: "fifo"}, Env: genEnv(r), Note: "stalled-device", StepCap: 4000000})
+		}
+	}
 	// part 1b: a failing sink next to healthy renders in the same process
 	// (they share the worker pool and the evaluation channel)
 	npairs := 40
@@ -276,7 +329,7 @@ func planC12(tier string, root *simcore.RNG) *plan {
 	}
 	// part 1c: a failed render followed by healthy renders into the same format
 	for _, sink := range []string{"stl", "3mf", "dxf", "svg"} {
-		for _, fk := range []Fault{{Kind: "devfull"}, {Kind: "fsize", Budget: 100}, {Kind: "fsize", Budget: 5000}, {Kind: "vanish"}, {Kind: "nodir"}, {Kind: "isdir"}} {
+		for _, fk := range []Fault{{Kind: "devfull"}, {Kind: "fsize", Budget: 100}, {Kind: "fsize", Budget: 5000}, {Kind: "vanish"}, {Kind: "nodir"}, {Kind: "isdir"}, {Kind: "fifo"}} {
 			r := root.Fork()
 			kind := "script3"
 			if sink == "dxf" || sink == "svg" {
@@ -409,7 +462,7 @@ func planC12(tier string, root *simcore.RNG) *plan {
 	}
 	histories += mixed
 	pl.extra = map[string]any{"fault_points_enumerated": faultPoints, "render_histories": histories}
-	pl.rule = "part 1: for every render-to-file entry (ToSTL/To3MF/ToDXF/ToSVG) x renderer (scripted; uniform and octree marching cubes; uniform/quadtree marching squares; 2D dual contouring) x fault (create fails: missing directory, path is a directory; /dev/full; the file is unlinked right after it was created; the process is out of file descriptors (EMFILE); RLIMIT_FSIZE budget n for every 4096-byte flush index +-1 byte, the header offsets 0/1/83/84/85, size-1/-84/-85, and the unreached control budget; thorough adds every byte offset for small files) x schedule (fifo, uniform, starve(consumer), starve(renderer)); oracle = the call returns (simulator deadlock verdict otherwise). part 2: histories that repeat a block of renders (all sinks and renderer families, failing renders included; or one renderer kind at alternating coarse and fine resolutions) R>=4 times; oracle = goroutine count at quiescence after repetition R <= after repetition 2. Non-trivial = the injected fault actually fired (or, for census episodes, a uniform render ran); distinct = (entry, fault kind, budget, policy)."
+	pl.rule = "part 1: for every render-to-file entry (ToSTL/To3MF/ToDXF/ToSVG) x renderer (scripted; uniform and octree marching cubes; uniform/quadtree marching squares; 2D dual contouring) x fault (create fails: missing directory, path is a directory; /dev/full; the file is unlinked right after it was created; the process is out of file descriptors (EMFILE); the path is a named pipe with a reader (writes succeed, seek and truncate do not), also with a reader that is busy for 12..35 s of real time so that every write stalls; RLIMIT_FSIZE budget n for every 4096-byte flush index +-1 byte, the header offsets 0/1/83/84/85, size-1/-84/-85, and the unreached control budget; thorough adds every byte offset for small files) x schedule (fifo, uniform, starve(consumer), starve(renderer)); oracle = the call returns (simulator deadlock verdict otherwise). part 2: histories that repeat a block of renders (all sinks and renderer families, failing renders included; or one renderer kind at alternating coarse and fine resolutions) R>=4 times; oracle = goroutine count at quiescence after repetition R <= after repetition 2. Non-trivial = the injected fault actually fired (or, for census episodes, a uniform render ran); distinct = (entry, fault kind, budget, policy)."
 	pl.nontriv = func(o *runOut) (bool, string) {
 		if o.res == nil {
 			return false, ""
